@@ -168,13 +168,21 @@ pub fn valid_opts(r: &mut Rng, sw: &Swarm) -> Opts {
     Opts::plain(crate::shape::Shape::Pure(0))
 }
 
-fn scramble_undeclared(declared: &[&'static str]) -> std::collections::BTreeMap<Tok, Tok> {
+/// names of all known variables that this definition does not declare
+pub fn undeclared(declared: &[&'static str]) -> Vec<&'static str> {
+    gen::all_env_names()
+        .into_iter()
+        .filter(|n| !declared.contains(n))
+        .collect()
+}
+
+/// flip every undeclared variable, in the simulated store and in the worker's real environment
+pub fn scramble_undeclared(declared: &[&'static str]) -> std::collections::BTreeMap<Tok, Tok> {
+    let names = undeclared(declared);
+    world::real_env_flip(&names);
     world::with(|s| {
         let saved = s.env.clone();
-        for name in gen::LOOKALIKE_ENVS.iter().chain(gen::ENVS.iter()) {
-            if declared.contains(name) {
-                continue;
-            }
+        for name in &names {
             let k = name.as_bytes().to_vec();
             if s.env.remove(&k).is_none() {
                 s.env.insert(k, b"13".to_vec());
@@ -182,6 +190,11 @@ fn scramble_undeclared(declared: &[&'static str]) -> std::collections::BTreeMap<
         }
         saved
     })
+}
+
+pub fn unscramble(declared: &[&'static str], saved: std::collections::BTreeMap<Tok, Tok>) {
+    world::real_env_flip(&undeclared(declared));
+    world::with(|s| s.env = saved);
 }
 
 struct Live {
@@ -448,7 +461,7 @@ pub fn run_case(case: &Case, stats: &mut Stats) -> RunReport {
         // ---- T4b: undeclared variables are invisible
         let saved = scramble_undeclared(&declared);
         let framed = exec_op(op, &live[p].parser);
-        world::with(|s| s.env = saved);
+        unscramble(&declared, saved);
         stats.bump("rule.T4.evaluated");
         if !framed.same_result(&first) {
             violation!(
